@@ -13,6 +13,7 @@
 -/
 import RaftVerif.Model.Snapshot
 import RaftVerif.Proofs.LeaderSpecs
+import RaftVerif.Proofs.ReplSafety
 set_option linter.unusedSimpArgs false
 set_option linter.unusedVariables false
 namespace Raft
@@ -123,5 +124,35 @@ theorem C10_counterexample_apply_between_label_and_content :
     (exS9.node.snapshotBegin).map (·.1.index) = some 3 ∧
     ((exS9.apply 0).snapshotContent) = [3, 4] ∧ [3, 4] ≠ [3, 4].filter (· ≤ 3) := by
   decide
+
+/-! ## Cluster level: what an exact snapshot labelled `i` must contain is the same for every
+    node and at every time
+
+  On the replication-layer model (7.1) the content of an exact snapshot labelled `i` taken
+  by node `a` is the image of its first `i` log entries, `i ≤ commit` (only applied entries
+  are captured). Whatever node takes it and whenever, that prefix is the same list: a
+  snapshot taken on one node and installed on another, or restored after a restart much
+  later, stands for exactly the entries every node applies at positions `1..i`. -/
+
+theorem C10_exact_snapshot_is_node_and_time_independent {cfg : Config} (hnd : cfg.voterIds.Nodup)
+    {s s' : Repl.AState} (hr : Repl.Reachable cfg s) (hfrom : Repl.ReachableFrom cfg s s') (a b i : Nat)
+    (ha : i ≤ (s.nodes a).commit) (hb : i ≤ (s'.nodes b).commit) :
+    (s.nodes a).log.take i = (s'.nodes b).log.take i := by
+  have hi := Repl.inv_reachable hnd hr
+  have hr' : Repl.Reachable cfg s' := Repl.reachable_trans hr hfrom
+  have hi' := Repl.inv_reachable hnd hr'
+  have hca := (hi.commit_ok a).1
+  have hcb := (hi'.commit_ok b).1
+  have key : ∀ (x y : List Repl.AEntry), x <+: y → i ≤ x.length → x.take i = y.take i := by
+    intro x y hxy hx
+    obtain ⟨t, rfl⟩ := hxy
+    rw [List.take_append_of_le_length hx]
+  have e1 : ((s.nodes a).log.take (s.nodes a).commit).take i = (s.nodes a).log.take i := by
+    rw [List.take_take]; congr 1; omega
+  have e2 : ((s'.nodes b).log.take (s'.nodes b).commit).take i = (s'.nodes b).log.take i := by
+    rw [List.take_take]; congr 1; omega
+  rcases Repl.state_machine_safety hnd hr hfrom a b with h | h
+  · rw [← e1, ← e2]; exact key _ _ h (by rw [List.length_take]; omega)
+  · rw [← e1, ← e2]; exact (key _ _ h (by rw [List.length_take]; omega)).symm
 
 end Raft
